@@ -56,30 +56,61 @@ type pentry struct {
 	w   uint64
 }
 
-func buildTrie(entries []pentry) *wmpt.WeightedMerkleTrie {
-	t := wmpt.New(nil, nil)
+func buildTrie(entries []pentry) *wmpt.WeightedMerkleTrie { return buildTrieMode(entries, 0) }
+
+// buildTrieMode builds the prover's trie: mode 0 in memory; 1..4 over storage, committed at collapse level mode-1;
+// 5..8 the same, then re-opened from (root, weight) so that every node is a storage reference until it is resolved.
+func buildTrieMode(entries []pentry, mode int) *wmpt.WeightedMerkleTrie {
+	if mode == 0 {
+		t := wmpt.New(nil, nil)
+		for _, e := range entries {
+			if err := t.Update(pkey(e.ab), []byte(e.val), e.w); err != nil {
+				panic(err)
+			}
+		}
+		return t
+	}
+	db := &memKV{m: map[string][]byte{}}
+	t := wmpt.New(nil, db)
 	for _, e := range entries {
 		if err := t.Update(pkey(e.ab), []byte(e.val), e.w); err != nil {
 			panic(err)
 		}
 	}
+	b, err := t.Commit((mode - 1) % 4)
+	if err != nil {
+		panic(err)
+	}
+	b.Commit(true)
+	if mode >= 5 && t.Weight() > 0 {
+		t = wmpt.New(wmpt.NewHashNode(t.Root(), t.Weight()), db)
+	}
 	return t
 }
 
+// honestRecords returns the prover's proof for block b and its records parsed by the bridge (nil records if the prover
+// failed or emitted something the bridge cannot parse: the raw bytes are then judged as an honest proof all the same).
 func honestRecords(t *wmpt.WeightedMerkleTrie, b uint64) ([]*bridge.WNode, []byte) {
-	_, proof, err := t.GetBlockProof(b)
-	if err != nil {
-		panic(fmt.Sprintf("honest proof for block %d: %v", b, err))
+	var proof []byte
+	if Guard(func() string {
+		_, p, err := t.GetBlockProof(b)
+		if err != nil {
+			return "err"
+		}
+		proof = p
+		return "ok"
+	}) != "ok" {
+		return nil, nil
 	}
 	recs, err := bridge.ParseProof(proof)
 	if err != nil {
-		panic(err)
+		return nil, proof
 	}
 	var out []*bridge.WNode
 	for _, r := range recs {
 		n, err := bridge.ParseWNode(r)
-		if err != nil {
-			panic(err)
+		if err != nil || (n.Kind != 'B' && n.Kind != 'S' && n.Kind != 'V') {
+			return nil, proof
 		}
 		out = append(out, n)
 	}
@@ -235,9 +266,19 @@ func RunProofPlan(w *tr.Writer, st *PStats, tid int, p PPlan) {
 		entries = append(entries, pentry{ab, vw[0].(string), wt})
 	}
 	sort.Slice(entries, func(i, j int) bool { return entries[i].ab < entries[j].ab })
-	t := buildTrie(entries)
+	// the prover's trie rotates over in-memory / committed at a collapse level / re-opened from storage
+	mode := tid % 9
+	t := buildTrieMode(entries, mode)
 	root := append([]byte(nil), t.Root()...)
 	recs, honest := honestRecords(t, p.Block)
+	if recs == nil {
+		// the prover's own output is unusable for editing: submit it as it is, as the honest proof it claims to be
+		ev := map[string]any{"tid": tid, "op": "proof", "entries": entriesJSON(entries), "block": p.Block, "nedits": 0,
+			"reweighted": false, "imitated": false, "applied": true, "mforged": false, "kind": "honest-unparsed", "mode": mode}
+		verifyOutcome(ev, root, p.Block, honest)
+		emitProof(w, st, ev, fmt.Sprint(len(entries), p.Block, "unparsed"))
+		return
+	}
 	applied := true
 	for _, e := range p.Edits {
 		var ok bool
@@ -249,7 +290,7 @@ func RunProofPlan(w *tr.Writer, st *PStats, tid int, p PPlan) {
 		proof = encodeRecords(recs)
 	}
 	ev := map[string]any{"tid": tid, "op": "proof", "entries": entriesJSON(entries), "block": p.Block, "nedits": len(p.Edits),
-		"reweighted": false, "imitated": false, "applied": applied, "mforged": p.MForged, "kind": "plan"}
+		"reweighted": false, "imitated": false, "applied": applied, "mforged": p.MForged, "kind": "plan", "mode": mode}
 	var kinds []string
 	for _, e := range p.Edits {
 		kinds = append(kinds, e.E)
@@ -319,6 +360,24 @@ func RunProofRandom(w *tr.Writer, st *PStats, tid *int, r *rand.Rand) {
 	for i, e := range rks {
 		entries = append(entries, pentry{fmt.Sprintf("%03d", i), e.val, e.w})
 	}
+	// two of three provers work over storage: committed at a collapse level, and possibly re-opened from (root, weight)
+	if r.Intn(3) > 0 {
+		db := &memKV{m: map[string][]byte{}}
+		t = wmpt.New(nil, db)
+		for _, e := range rks {
+			if err := t.Update(e.key, []byte(e.val), e.w); err != nil {
+				panic(err)
+			}
+		}
+		b, err := t.Commit(r.Intn(4))
+		if err != nil {
+			panic(err)
+		}
+		b.Commit(true)
+		if r.Intn(2) == 0 {
+			t = wmpt.New(wmpt.NewHashNode(t.Root(), t.Weight()), db)
+		}
+	}
 	root := append([]byte(nil), t.Root()...)
 	total := t.Weight()
 	// another trie for cross-trie substitution
@@ -335,7 +394,7 @@ func RunProofRandom(w *tr.Writer, st *PStats, tid *int, r *rand.Rand) {
 		b := uint64(1 + r.Intn(int(total)))
 		_, honest, err := t.GetBlockProof(b)
 		if err != nil {
-			panic(err)
+			honest = nil // judged as an honest proof that does not verify
 		}
 		proof := append([]byte(nil), honest...)
 		kind := "honest"
@@ -345,6 +404,10 @@ func RunProofRandom(w *tr.Writer, st *PStats, tid *int, r *rand.Rand) {
 			// pass the hash preimage of a branch / short record of the honest proof off as a value record
 			kind = "imitate"
 			recs, _ := honestRecords(t, b)
+			if len(recs) == 0 {
+				kind = "honest"
+				break
+			}
 			i := 1 + r.Intn(len(recs))
 			if nr, ok := applyEdit(t, recs, PEdit{E: "imitate", I: i}); ok {
 				proof = encodeRecords(nr)
